@@ -161,6 +161,43 @@ def check_hex_display(run, d):
     run.count("hexdisplay")
 
 
+def check_dump_file(run, model, rng, d):
+    """the same bytes written as an I/O-drawer dump file in either format, with comment / blank / title lines, read back by
+    io_drawer.dump.parse_dump_file (the bytes it hands to the decoder are captured)"""
+    import os
+    import tempfile
+    from io_drawer import dump
+    titles = ["", "# dump", "IO drawer dump", "-----"]
+    for fid, cmd in ((1, "render1"), (2, "render2")):
+        lines = list(model.call(cmd, bytes([rng.randrange(2)]), d))
+        extra = list(titles)
+        if fid == 1:
+            # the format with an address column: a title that begins with two hex digits is no data line of it
+            extra += ["Date: 2024-01-01", "Dec 12 10:00:01", "Add", "BEEF", "00 first"]
+        for _ in range(rng.randrange(0, 4)):
+            lines.insert(rng.choice([0, 0, rng.randrange(len(lines) + 1)]), rng.choice(extra) + "\n")
+        fd, path = tempfile.mkstemp(prefix="verif_c13_", suffix=".txt")
+        got = {}
+        orig = dump.parse_dump_data
+        try:
+            with os.fdopen(fd, "w") as f:
+                f.write("".join(lines))
+            dump.parse_dump_data = lambda data, *a, **k: got.setdefault("bytes", bytes(data)) and []
+            try:
+                dump.parse_dump_file(path, "/nonexistent_header", "/nonexistent_strings")
+            except Exception as e:  # noqa: BLE001
+                got["exc"] = repr(e)
+        finally:
+            dump.parse_dump_data = orig
+            os.remove(path)
+        run.evaluations += 1
+        run.count("dump-file:%d" % fid)
+        back = got.get("bytes", b"")
+        if back != d:
+            run.violation("dumpfile:format%d" % fid, "a dump file in format %d with comment / title lines is not read back as its bytes (%d of %d bytes)" % (fid, len(back), len(d)),
+                          dict(kind="S", fn="dump-file", fmt=fid, input_hex=d.hex()[:4000], file_text="".join(lines)[:3000], got_hex=back.hex()[:400], exc=got.get("exc")))
+
+
 def check_cli_hex(run, model, rng):
     """the --hex display through the real command line: -f, -a, -l, -i on PELs with and without bytes after the last section"""
     import os
@@ -255,6 +292,8 @@ def run(run, model, proof):
         if i % 10 == 0:
             check_hex_display(run, d if d else b"\0")
             check_cli_hex(run, model, rng)
+        if i % 7 == 0 and d:
+            check_dump_file(run, model, rng, d)
     if thorough:
         for n in (65536, 65537, 70000, 200000):
             d = gen_bytes(rng, n)
